@@ -619,7 +619,23 @@ func c15Ladder(c *Ctx) {
 	// table order: every strategy tried before the first one that cannot fail
 	// must not be able to hand back an empty database with a nil error
 	ordered := map[int64]*ssa.Function{}
-	ssau.ForEachInstr(fn, false, func(in ssa.Instruction) {
+	// the table literal is in the function or in a helper that returns it
+	tableFn := fn
+	for _, g := range withSteps(c, fn, 1) {
+		if g == fn || g.Signature.Results().Len() != 1 {
+			continue
+		}
+		if sl, ok := g.Signature.Results().At(0).Type().Underlying().(*types.Slice); ok {
+			if st, ok := sl.Elem().Underlying().(*types.Struct); ok {
+				for i := 0; i < st.NumFields(); i++ {
+					if _, isSig := st.Field(i).Type().Underlying().(*types.Signature); isSig {
+						tableFn = g
+					}
+				}
+			}
+		}
+	}
+	ssau.ForEachInstr(tableFn, false, func(in ssa.Instruction) {
 		st, ok := in.(*ssa.Store)
 		if !ok {
 			return
@@ -803,6 +819,57 @@ func c15Retry(c *Ctx, sx *symx.Ctx) {
 			}
 		}
 	}
+	if ctr != nil && !bounded {
+		// by induction: 1 <= Max where the count starts, and the next round is
+		// entered only on an edge that establishes attempt < Max (the false side
+		// of attempt == Max, given attempt <= Max)
+		var maxVals []ssa.Value
+		ssau.ForEachInstr(fn, false, func(in ssa.Instruction) {
+			if v, ok := in.(ssa.Value); ok {
+				if _, isMax := ssau.IsFieldLoad(v, recPkg+".RetryConfig", "MaxAttempts"); isMax {
+					maxVals = append(maxVals, v)
+				}
+			}
+		})
+		q := interval.New(f)
+		for _, mv := range maxVals {
+			okAll := true
+			for i, e := range ctr.Edges {
+				pred := ctr.Block().Preds[i]
+				if k, isC := ssau.ConstInt(e); isC && k == 1 {
+					if iv := q.At(mv, pred); !(iv.LoOK && iv.Lo >= 1) {
+						okAll = false
+					}
+					continue
+				}
+				cut := map[[2]int]bool{}
+				for _, iff := range ssau.Ifs(fn) {
+					op, x, y, ok := ssau.CondOf(iff.Cond)
+					if !ok {
+						continue
+					}
+					if y == ssa.Value(ctr) {
+						x, y, op = y, x, ssau.Flip(op)
+					}
+					if x != ssa.Value(ctr) || f.E(y) != f.E(mv) {
+						continue
+					}
+					switch op {
+					case token.EQL, token.GEQ:
+						cut[[2]int{iff.Block().Index, 1}] = true
+					case token.NEQ, token.LSS:
+						cut[[2]int{iff.Block().Index, 0}] = true
+					}
+				}
+				if len(cut) == 0 || reachFromAvoiding(fn, ctr.Block(), pred, cut) {
+					okAll = false
+				}
+			}
+			if okAll {
+				bounded = true
+			}
+		}
+	}
 	if !r.Check(ctr != nil && bounded, "O-2", fk+"#counted-loop", c.P.Pos(fn.Pos()), "the load runs only while attempt (1, 2, ...) <= MaxAttempts", "no attempt counter starting at 1 and stepped by one that is proven <= MaxAttempts at the load: the number of load attempts is not bounded by the configuration") {
 		return
 	}
@@ -847,6 +914,38 @@ func c15Retry(c *Ctx, sx *symx.Ctx) {
 		guarded := false
 		for _, m := range maxExprs {
 			if bf.LT(ctr, m, true, sl.Block()) {
+				guarded = true
+			}
+		}
+		if !guarded {
+			// attempt <= Max holds at the load (shown above); the sleep lies behind
+			// an edge that excludes attempt == Max
+			cut := map[[2]int]bool{}
+			for _, iff := range ssau.Ifs(fn) {
+				op, x, y, ok := ssau.CondOf(iff.Cond)
+				if !ok {
+					continue
+				}
+				if y == ssa.Value(ctr) {
+					x, y, op = y, x, ssau.Flip(op)
+				}
+				isMax := false
+				for _, m := range maxExprs {
+					if f.E(y) == m {
+						isMax = true
+					}
+				}
+				if x != ssa.Value(ctr) || !isMax {
+					continue
+				}
+				switch op {
+				case token.EQL, token.GEQ:
+					cut[[2]int{iff.Block().Index, 1}] = true
+				case token.NEQ, token.LSS:
+					cut[[2]int{iff.Block().Index, 0}] = true
+				}
+			}
+			if len(cut) > 0 && (ld.Block().Dominates(sl.Block()) || ld.Block() == sl.Block()) && !reachFromAvoiding(fn, ld.Block(), sl.Block(), cut) {
 				guarded = true
 			}
 		}
